@@ -36,7 +36,8 @@ type ComparableString struct {
 
 // CompareTo Compare with an another object
 func (obj ComparableString) CompareTo(input interface{}) int {
-	return strings.Compare(string(obj.Val), string(input.(ComparableString).Val))
+	// same sign convention as ComparableOrdered / CompareToOrdered: positive when obj sorts before input
+	return strings.Compare(string(input.(ComparableString).Val), string(obj.Val))
 }
 
 // SortDescriptor Define a Transformer Pattern SortDescriptor
@@ -69,9 +70,9 @@ func _compareBySortDescriptors[T any](item1 T, item2 T, sortDescriptors []SortDe
 	result := 0
 	if key1 != nil && key2 != nil {
 		if descriptor.IsAscending() {
-			key1.CompareTo(key2)
+			result = key1.CompareTo(key2)
 		} else {
-			key2.CompareTo(key1)
+			result = key2.CompareTo(key1)
 		}
 	}
 	if key1 != nil && key2 == nil {
